@@ -167,6 +167,7 @@ def worker_main(prop, cases_path, out_path):
             if reach is not None:
                 reach.stop()
                 tail["obs"]["calls"] = reach.counts()
+                tail["obs"]["calls_by_module"] = reach.module_counts()
             if hasattr(mod, "worker_obs"):
                 merge_obs(tail["obs"], mod.worker_obs())
             out.write(json.dumps(tail) + "\n")
